@@ -1124,6 +1124,7 @@ var fixedCorpus = [][]string{
 	{`func f(n){{n:print("a"), n:print("b")}};f(1)`}, {`for n=0:2{println({n:1, n:2})}`},
 	{`m={1:"a",2:"b",3:"c",4:"d",5:"e"}; for i=1:6 {print(m[i])}`}, {`m={1:"a",2:"b",3:"c",4:"d",5:"e"}; f=func(k){m[k]}; f(3)`},
 	{`m={1:"a",2:"b",3:"c",4:"d",5:"e"}; for i=1:3 {del(m[i])}; m`}, {`func f(k){[[k] == [3], [k] < [4], {k:1}]}; f(3)`},
+	{`abs(-9223372036854775807-1)`}, {`func neg(n){-n}; neg(-9223372036854775807-1)`},
 	{`func f(n){pow(n,(n=2))}; f(3)`}, {`func f(n){max(n,(n=1))}; f(3)`}, {`func f(n){sprintf("%d-%d",n,(n=1))}; f(3)`}, {`for i=3{println(max(i,(i=0)))}`},
 	{`func f(n){two(n,(n=2))}; f(3)`}, {`func f(n){println(n, (n=2)); [n,(n=7),n]}; f(3)`},
 	{`each([[1,2],[3],[4,5,6]], x=>each(x, y=>y*10))`}, {`println(va(4), vb(3))`}, {`times(3, a=>times(a+1, b=>a*b))`},
@@ -1265,6 +1266,32 @@ func runC05(c *Ctx) {
 			c.Count("depth-limit-outcome=" + res.on[0].Class())
 		}
 		depthLimit = 0
+	}
+	// 3c. int64 extremes through every unary and binary operator and the prelude functions written in grol, as
+	// register-held parameters and loop variables (registers on) vs plain values (registers off); exhaustive pairs
+	extremes := []string{"(-9223372036854775807-1)", "9223372036854775807", "-1", "0", "1", "2", "63", "64", "-9223372036854775807"}
+	unary := []string{"-a", "+a", "!a", "^a", "~a", "- -a", "-(a)", "abs(a)", "log2(a)", "str(a)", "len(str(a))", "[a][0]", "{a:a}"}
+	binary := []string{"+", "-", "*", "/", "%", "<<", ">>", "&", "|", "^", "==", "!=", "<", "<=", ">", ">=", "&&", "||"}
+	var exParts []string
+	for _, u := range unary {
+		exParts = append(exParts, "catch("+u+")")
+	}
+	for _, op := range binary {
+		exParts = append(exParts, "catch(a "+op+" b)", "catch(b "+op+" a)")
+	}
+	exParts = append(exParts, "catch(max(a,b))", "catch(min(a,b,0))", "catch(pow(a,2))", "catch(a*a*a)", "catch(-a - b)", "catch(abs(a) + abs(b))")
+	exDef := "func exall(a,b){[" + strings.Join(exParts, ", ") + "]}; func exneg(n){-n}; func exinc(a){[catch(a++), a, catch(--a), a]}; func exsum(a,b){s=a; s=s+b; s=s-1; s=s*2; [s, -s, abs(s)]}"
+	for _, x := range extremes {
+		for _, y := range extremes {
+			if enough() {
+				break
+			}
+			runBoth(c, []string{exDef, fmt.Sprintf("println(exall(%s,%s))", x, y), fmt.Sprintf("println(exneg(%s), exsum(%s,%s), abs(%s), log2(%s), exinc(%s))", x, x, y, x, y, x)}, "", -1)
+			c.Count("int64-extremes")
+		}
+		// the extreme as a loop variable (one iteration) and as a loop bound
+		runBoth(c, []string{fmt.Sprintf("for xi=%s:%s+1 {println(-xi, xi+1, xi-1, xi*2, abs(xi), xi/2, xi%%3, xi<<1, xi>>1, ^xi, xi==%s, -(-xi))}", x, x, x),
+			fmt.Sprintf("xa=%s; for xj=3 {xa = -xa - xj}; xa", x)}, "", -1)
 	}
 	// 4. value programs: direct oracle only
 	vn := 0
